@@ -371,8 +371,29 @@ let cmd_marker () =
     | _ -> ()
   done with End_of_file -> ())
 
+(* ---------- journal writer buffering (C09): stdin lines "b <len> <len> ..." (one write_all per entry) or
+   "p buffer|data|all"; prints the OS-level effects in order ---------- *)
+let rec nat_of_int i = if i = 0 then O else S (nat_of_int (i - 1))
+let rec int_of_nat = function O -> 0 | S n -> 1 + int_of_nat n
+let cmd_writer () =
+  let st = ref w_init in
+  (try while true do
+    let l = input_line stdin in
+    match split ' ' (String.trim l) with
+    | "b" :: lens ->
+        let entries = List.map (fun x -> List.init (int_of_string x) (fun _ -> N0)) lens in
+        st := w_step !st (WBatch entries)
+    | ["p"; m] -> st := w_step !st (WPersist (match m with "data" -> PSyncData | "all" -> PSyncAll | _ -> PBuffer))
+    | _ -> ()
+  done with End_of_file -> ());
+  List.iter (fun e -> match e with
+    | OsWrite n -> Printf.printf "write %d\n" (int_of_nat n)
+    | OsFdatasync -> print_endline "fdatasync"
+    | OsFsync -> print_endline "fsync") (List.rev (!st).w_log)
+
 let () =
   match Array.to_list Sys.argv with
+  | [_; "writer"] -> cmd_writer ()
   | [_; "marker"] -> cmd_marker ()
   | [_; "opts"] -> cmd_opts ()
   | [_; "run"; cfg; file] -> cmd_run cfg file
